@@ -273,7 +273,8 @@ def layout_lines(tier):
                           Vs=info + "return s.num_significand_digits > 0 && s.num_chars <= m && s.num_chars == s.num_significand_digits + 2 + %d;" % X,
                           Vf=info + "return f.num_significand_digits > 0 && f.num_chars <= m && %d + f.trailing_zeros <= m && f.num_significand_digits <= %d;" % (max(0, S + min(0, E)), S),
                           Ps=info + "return std::tuple{s.num_significand_digits, -s.num_chars} > std::tuple{f.num_significand_digits, -f.num_chars};",
-                          sel="if (m < 0 || m > %d) __builtin_unreachable(); auto const r = cnl::_impl::to_chars_positive(f, f + m, std::string_view(p, %d), %d); return int(r.ec);" % (_MMAX, S, E)))
+                          sel="if (m < 0 || m > %d) __builtin_unreachable(); auto const r = cnl::_impl::to_chars_positive(f, f + m, std::string_view(p, %d), %d); return int(r.ec);" % (_MMAX, S, E),
+                          full="if (m < 0 || m > %d) __builtin_unreachable(); auto const r = cnl::_impl::to_chars_positive(f, f + m, std::string_view(\"%s\", %d), %d); return int(r.ec) * 100000 + int(r.ptr - f);" % (_MMAX, ("1234567891" * 5)[:max(S, 1)], S, E)))
     return L
 
 
@@ -294,15 +295,16 @@ def _static10_stub(name, values):
     return out
 
 
-def selection_trees(work, L, tag):
-    """compile the to_chars_positive kernels, cut fill to noreturn declarations, model to_chars_static, inline, and
-    return {key: control-only ite tree}"""
+def selection_trees(work, L, tag, full=False):
+    """compile the to_chars_positive kernels, cut fill to noreturn declarations (full=False) or leave the real fill in
+    (full=True: the significand characters are then a literal, so that fill's character-driven loop folds), model
+    to_chars_static, inline, and return {key: control-only ite tree}"""
     from vlib import gate
     src = os.path.join(work, "sel_%s.cpp" % tag)
     with open(src, "w") as f:
         f.write(tc.PRELUDE["clang"] + "\n")
         for i, ln in enumerate(L):
-            f.write('extern "C" int sel%d(char* f, int m, char const* p) { %s }\n' % (i, ln["sel"]))
+            f.write('extern "C" int sel%d(char* f, int m, char const* p) { %s }\n' % (i, ln["full" if full else "sel"]))
         f.write('extern "C" int selctl(char* f, int m, char const* p) { if (m < 0 || m > %d) __builtin_unreachable(); if (m == 7) cnl::_impl::unreachable<void>("control"); return 75; }\n' % _MMAX)
     raw = os.path.join(work, "sel_%s.raw.ll" % tag)
     cmd = [tc.CLANGXX, "-std=gnu++20", "-I", os.path.join(tc.REPO, "include"), "-O2", "-Xclang", "-disable-llvm-passes", "-fwrapv", "-S", "-emit-llvm", src, "-o", raw]
@@ -324,7 +326,7 @@ def selection_trees(work, L, tag):
     while i < len(lines):
         l = lines[i]
         m = re.match(r"^define [^@]*@([\w.$]+)\(", l)
-        if m and m.group(1) in (want[_FILL_SCI], want[_FILL_FIX]):
+        if m and not full and m.group(1) in (want[_FILL_SCI], want[_FILL_FIX]):
             sig = l[:l.rindex(")") + 1]
             sig = re.sub(r"^define (linkonce_odr )?(dso_local )?", "declare ", sig)
             sig = re.sub(r" %\d+(?=[,)])", "", sig)
@@ -377,8 +379,43 @@ def run_layout(r, work, tier):
     trees = {}
     for res, _ in tc.pmap(lambda a: selection_trees(work, a[1], str(a[0])), list(enumerate(chunks))):
         trees.update(res)
+    ftrees = {}
+    for res, _ in tc.pmap(lambda a: selection_trees(work, a[1], "full" + str(a[0]), full=True), list(enumerate(chunks))):
+        ftrees.update(res)
     cnt = {"proved": 0, "refuted": 0, "undecided": 0}
     dom = ISet.from_signed(32, 0, _MMAX)
+
+    def full_judge(tree):
+        """the real to_chars_positive with the real solvers AND the real fill: for every buffer size the call either
+        succeeds having written 1..m characters, or reports value_too_large with ptr == last; no CNL_ASSERT of fill
+        (out == begin + num_chars, out <= end) or of the selection can fail.  Returns [(kind, ISet, text)]"""
+        if isinstance(tree, Exception):
+            raise tree
+        var = ("arg", 1, "i32")
+        probs = []
+        for D, leaf in iset.leaves(tree, var, dom):
+            if leaf[0] == "effect":
+                msg = leaf[2][0][2] if leaf[2] else leaf[1]
+                probs.append(("fill-assertion-reached", D, "a CNL_ASSERT fails (%s)" % msg[-120:]))
+                continue
+            aff = iset.affine(leaf, var)
+            if aff is None:
+                raise iset.Undecided("result not affine in the buffer size: " + gate.show(leaf)[:120])
+            k, c = aff
+            for a, b in D.signed_intervals():
+                for mm in sorted({a, b}):
+                    v = k * mm + c
+                    ec, wr = divmod(v, 100000)
+                    if ec == 0 and not (1 <= wr <= mm):
+                        probs.append(("written-outside-buffer", ISet.from_signed(32, a, b), "success is reported with %d characters written into a buffer of %d" % (wr, mm)))
+                        break
+                    if ec == 75 and wr != mm:
+                        probs.append(("failure-not-at-last", ISet.from_signed(32, a, b), "value_too_large is reported with ptr - first == %d for a buffer of %d" % (wr, mm)))
+                        break
+                    if ec not in (0, 75):
+                        probs.append(("unknown-result", ISet.from_signed(32, a, b), "result code %d" % ec))
+                        break
+        return probs
 
     def truthset(ob):
         """the set of buffer sizes on which a boolean kernel is true"""
@@ -450,6 +487,13 @@ def run_layout(r, work, tier):
             continue
         Vs, Vf, Ps = sets["Vs"], sets["Vf"], sets["Ps"]
         probs = []
+        try:
+            probs += full_judge(ftrees.get(key, gate.Unsupported("missing")))
+            ln["full"] = "decided"
+        except (gate.Unsupported, iset.Undecided, RecursionError) as e:
+            ln["full"] = "undecided: " + repr(e)[:160]
+            cnt.setdefault("full_undecided", 0)
+            cnt["full_undecided"] += 1
         if E["assert"]:
             probs.append(("assertion-reached", E["assert"], "a CNL_ASSERT of to_chars_positive fails (%s)" % "; ".join(sorted(set(msgs.values())))[:300]))
         if E["sci"] - Vs:
@@ -583,15 +627,17 @@ def run(tier, seed, work):
             nu += 1
     LL, lcnt = run_layout(r, work, tier)
     common.floor_check(r, "layout lines decided", lcnt["proved"] + lcnt["refuted"], FLOOR[tier]["layout"])
+    n_full = sum(1 for ln in LL if ln.get("full") == "decided")
+    common.floor_check(r, "layout lines decided with the real fill inlined", n_full, FLOOR[tier]["layout"])
     common.floor_check(r, "capacity facts judged", nf["proved"] + nf["refuted"], FLOOR[tier]["facts"])
     common.floor_check(r, "buffer stores checked", n_st, FLOOR[tier]["stores"])
     common.floor_check(r, "value_too_large returns checked", n_res, FLOOR[tier]["results"])
     r.coverage = {
-        "explanation": "capacity type facts vs an exact decimal-length oracle; dominance rule for every byte store of the integer path and the scaled overload's sign; ptr == last on every value_too_large return; who-may-call for the digit-writing internals; fixed-capacity users reach the buffer through cnl::to_chars. E: the layout contract between the real solve_fixed/solve_scientific and fill's stated consumption, decided for every buffer size along lines with significand length and exponent pinned (fill's own loops are not analysed: their extents are taken from fill's CNL_ASSERTs and unconditional loops).",
+        "explanation": "capacity type facts vs an exact decimal-length oracle; dominance rule for every byte store of the integer path and the scaled overload's sign; ptr == last on every value_too_large return; who-may-call for the digit-writing internals; fixed-capacity users reach the buffer through cnl::to_chars. E: the layout contract, decided for every buffer size along lines with significand length and exponent pinned: (1) the real selection against the real solvers and fill's stated consumption; (2) the whole real to_chars_positive with the real solvers and the real fill inlined (significand characters pinned to a literal so that fill's character-driven loop folds): no CNL_ASSERT of fill or of the selection can fail, success writes 1..m characters, failure returns ptr == last. Only to_chars_static<10,int> (the exponent's text) is modelled by its specification.",
         "evaluations": len(F) + n_st + n_res + len(fam), "distinct_nontrivial": nf["proved"] + n_st + n_res,
         "rule": "non-trivial = judged capacity fact, checked store, checked failure return",
         "capacity_facts": len(F), "capacity_facts_proved": nf["proved"], "capacity_rejected_by_library": nf["rejected"],
-        "layout_lines": len(LL), "layout_proved": lcnt["proved"], "layout_refuted": lcnt["refuted"], "layout_undecided": lcnt["undecided"],
+        "layout_lines": len(LL), "layout_proved": lcnt["proved"], "layout_refuted": lcnt["refuted"], "layout_undecided": lcnt["undecided"], "layout_lines_with_real_fill": n_full,
         "functions_in_family": len(fam), "buffer_stores_checked": n_st, "value_too_large_returns_checked": n_res, "fixed_capacity_users_reaching_to_chars": nu,
         "samples": samples[:6] + [{"function": dem[n][:140], "kind": k} for n, k in sorted(fam.items())[:6]],
         "exhaustive": False,
